@@ -56,10 +56,12 @@ class StmtMixin:
         out = []
         a = st.copy()
         a.pc.append(cond)
+        a.ctrl.append(cond)
         if self.feasible(a):
             out.append((a, True))
         b = st
         b.pc.append(z3.Not(cond))
+        b.ctrl.append(z3.Not(cond))
         if self.feasible(b):
             out.append((b, False))
         return out
@@ -631,10 +633,17 @@ class StmtMixin:
             conds = self.branch(body_st, t)
         if not self.feasible(body_st):
             conds = []
+        loop_events = []
         for s, taken in conds:
             if not taken:
                 continue
+            log0 = len(s.log)
+            pc0 = len(s.ctrl)
             for kind, s2, v in self.exec_block(node.body, s, fr):
+                if len(s2.log) > log0:
+                    info = (k if is_for else None, lo if is_for else None, hi if is_for else None, key)
+                    for ev in s2.log[log0:]:
+                        loop_events.append(ev.in_loop(info, s2.ctrl[pc0:]))
                 if kind in ('normal', 'continue'):
                     if is_for:
                         s2.locals[idx] = k + 1
@@ -669,6 +678,7 @@ class StmtMixin:
                 after.pc.append(self.spec_term(inv, after, aframe))
             t = self.truth(self.ev(node.test, after, fr), after)
             after.pc.append(z3.Not(t) if not isinstance(t, bool) else z3.BoolVal(not t))
+        after.log = list(after.log) + loop_events
         if self.feasible(after):
             if node.orelse:
                 outs.extend(self.exec_block(node.orelse, after, fr))
